@@ -680,6 +680,61 @@ def norm_family(which):
   return _prove(cases, t0, extra)
 
 
+PROVOKE = [1000.1, 3000.7, 12345.678, 0.1, 10000.3, 77.77, 255.9, 4097.3, 1e-3,
+           33333.33]
+
+
+def variance_roundoff(which):
+  """the variance handed to rsqrt is >= 0 WHATEVER rounding does to the means
+  (each computed mean is an arbitrary real constrained only by sign preservation):
+  the documented 'clips negative variances' contract of _compute_stats"""
+  t0 = time.time()
+  cfgs = [(True, True, False), (True, False, False), (False, True, False),
+          (True, True, True), (True, False, True)]
+  fns = ((LN._compute_stats, 'linen'), (NN_._compute_stats, 'nnx'))
+  if sym.CONCRETE['on']:
+    # replay: float32 inputs whose E[x^2]-E[x]^2 rounds below zero, real functions
+    import jax.numpy as jnp
+    for fn, tag in fns:
+      for use_mean, fast, masked in cfgs:
+        for c in PROVOKE:
+          for n in (3, 6, 7):
+            x = jnp.full((2, n), c, jnp.float32)
+            mask = jnp.ones((2, n), bool).at[0, 0].set(False) if masked else None
+            mu, var = fn(x, (-1,), None, use_mean=use_mean, use_fast_variance=fast,
+                         mask=mask)
+            if not bool((var >= 0).all()):
+              return dict(status='sat', cex=dict(case='%s c=%r n=%d' % (tag, c, n)))
+    return dict(status='unsat')
+  q = 0
+  with SymEnv():
+    for fn, tag in fns:
+      for use_mean, fast, masked in cfgs:
+        x = A.sym('x', (2, 3))
+        m = A.sym('m', (2, 3), 'bool') if masked else None
+        sym.NOISY_MEAN['on'], sym.NOISY_MEAN['assume'] = True, []
+        try:
+          mu, var = fn(x, (-1,), None, use_mean=use_mean, use_fast_variance=fast,
+                       mask=m)
+        finally:
+          sym.NOISY_MEAN['on'] = False
+        sol = z3.Solver()
+        sol.set('timeout', 120000)
+        sol.add(*sym.NOISY_MEAN['assume'])
+        sol.add(z3.Or([sym._num(v.t) < 0 for v in A.of(var).data]))
+        r = str(sol.check())
+        q += 1
+        if r != 'unsat':
+          label = '%s._compute_stats use_mean=%s fast=%s masked=%s' % (
+              tag, use_mean, fast, masked)
+          return dict(status='sat' if r == 'sat' else 'unknown', queries=q,
+                      detail=label + ': variance can be negative under round-off',
+                      cex=dict(case=label) if r == 'sat' else None,
+                      solver_s=time.time() - t0)
+  return dict(status='unsat', queries=q, solver_s=time.time() - t0,
+              witness=dict(cases=['variance >= 0, %d configurations' % q], n=q))
+
+
 def dropout_pool(which):
   t0 = time.time()
   cases = []
@@ -954,6 +1009,14 @@ def obligations(tier):
     obs.append(Ob('formula_' + nm, _fam('norm_family'), dict(which=I(w, w)), kind='smt', replay=replay_family,
                   split=('which',), timeout=900, funcs=F2,
                   bounds='shapes <= 2x2x2 / 3x2, symbolic epsilon>0 and momentum'))
+  obs.append(Ob('variance_nonnegative_under_roundoff', _fam('variance_roundoff'),
+                dict(which=I(0, 0)), kind='smt', replay=replay_family,
+                split=('which',), timeout=600, funcs=F2,
+                bounds='x 2x3, rounded means arbitrary reals (sign preserving), '
+                       'fast / two-pass variance, with and without mean and mask',
+                assumes=('round-off model: every computed mean is an arbitrary real '
+                         'constrained only by sign preservation; replay searches '
+                         'float32 inputs on the real functions',)))
   for w, nm in enumerate(['dropout', 'pooling']):
     obs.append(Ob('formula_' + nm, _fam('dropout_pool'), dict(which=I(w, w)), kind='smt', replay=replay_family,
                   split=('which',), timeout=900, funcs=F3))
